@@ -276,3 +276,33 @@ REGISTRY["C17"] = dict(REGISTRY["C19"], **{
     "probes": ["wire_bitflip", "wire_truncated", "wire_trailing", "wire_duplicated_segment", "wire_nonminimal_varint", "wire_decode_rejected", "wire_reencode_checked",
                "tx_paths_compared", "block_paths_compared", "tx_db_path_compared", "corrupted_block_rejected", "observer_restart"],
 })
+
+# C20 = part A (block queue, engine bqsim) + part B (state synchronisation, engine ledger); workers alternate between the two engines.
+_c20a = REGISTRY["C20"]
+REGISTRY["C20"] = dict(_c20a, **{
+    "engine": ["bqsim", "ledger"],
+    "level_text": ("part A: " + _c20a["level_text"] + "; part B: a real Blockchain with state exchange on bootstraps from a fully synchronised "
+                   "real source node through the statesync.Module API (what server.go calls): header batches (partial, overlapping, with a "
+                   "broken-signature header injected), MPT nodes answering GetUnknownMPTNodesBatch in tape order and batch sizes 1-8 with "
+                   "duplicates, corrupted / unsolicited / garbage nodes injected, blocks in order with out-of-order offers injected, clean "
+                   "restarts and crashes (only durable state survives) at plan-chosen deliveries, and a crash after each of the last 12 "
+                   "batches around the state jump; the synced node must end at the sync point with the source's state root and complete "
+                   "contract storage, without leftover temporary items, and then follow the source in lockstep"),
+    "level_note": ("part A: " + _c20a["level_note"] + ". part B: MPT-based mode only (the raw-storage-item mode needs the NeoFS fetcher configuration "
+                   "and is not built); the peer (server.go's request logic) is the harness; the source serves nodes through "
+                   "statesync.Module.Traverse as handleGetMPTDataCmd does; chains are shorter than one header-hash batch (2000)"),
+    "design_ref": "DESIGN.md section 2, C20 parts A and B; section 9",
+    "technique": _c20a["technique"] + "; state sync: real source and target ledgers, simulated peer set with seeded ordering/batching/duplication/wrong data, restart and crash injection incl. every batch boundary of the state jump",
+    "budget": {"quick": 75, "thorough": 1800},
+    "chunk": 8, "shrink_s": 60, "inflight": True,
+    "rule": ("part A: " + _c20a["rule"] + " || part B: one run = source history of 2*interval+1..+10 blocks (StateSyncInterval 2-4, MaxTraceableBlocks 4/6/1000, "
+             "StateRootInHeader on), target with RemoveUntraceableBlocks (+KeepOnlyLatestState) or archival on memory/BoltDB/LevelDB; a run is "
+             "non-trivial when a fault or probe fired; distinct = distinct event-log hash"),
+    "probes": _c20a["probes"] + ["sync_started", "sync_jump_completed", "sync_state_checked", "sync_mpt_batches", "sync_mpt_nodes", "sync_blocks_fed",
+               "sync_header_batches", "sync_lockstep_blocks", "sync_target_restart", "sync_target_crash", "crash_during_jump",
+               "jump_resumed_or_complete", "jump_crash_before_marker", "bad_header", "headers_overlapping", "mpt_node_duplicated",
+               "mpt_node_corrupted", "mpt_node_unsolicited", "mpt_node_garbage", "block_out_of_order", "sync_inactive_short_chain"],
+    "components": {"real": _c20a["components"]["real"] + ["part B: pkg/core.Blockchain (source and target), pkg/core/statesync.Module, mptpool, mpt.Billet, jumpToStateInternal, stateroot module, storage backends behind simdisk"],
+                   "stub": _c20a["components"]["stub"] + ["part B: the peer set / server.go request logic = harness (asks GetUnknownMPTNodesBatch, fetches nodes from the source with Module.Traverse)"]},
+    "assumptions": _c20a["assumptions"] + ["part B: the peers' height shown to Module.Init is such that header P+1 exists on the source"],
+})
